@@ -85,7 +85,7 @@ class UpdateTaskState(Unit):
         "C18.uts.cycle_appends": {"props": ["C18"], "text":
             "a starting report on a completed record appends a fresh record and leaves the completed one untouched"},
         "C13.uts.no_transition_on_retry": {"props": ["C13"], "text":
-            "when the attempt is retried no transition is decided, nothing is staged for successors, the tally grows by exactly one and the task is re-staged ready with its retry settings"},
+            "when the attempt is retried no transition is decided, nothing is staged for successors, the tally grows by exactly one and the task is re-staged ready with the record's own evaluated retry settings (condition, count, delay, tally) - not the raw policy of the graph node"},
         "C13.uts.retry_counted_once": {"props": ["C13", "C01"], "text":
             "only a report that moves the record into retrying counts as a retry: any other report - in particular one that acknowledges (delayed, scheduled ...) or is ignored by a record already waiting to be retried - leaves the tally as it is and stages nothing for the task again"},
         "C13.uts.retry_only_while_active": {"props": ["C13", "C04"], "text":
@@ -209,7 +209,7 @@ class UpdateTaskState(Unit):
                        "status": rec_c}
                 if has_retry:
                     rec["retry"] = {"when": None if e.branch(S.mk_bool("when_none").z) else "<% w %>",
-                                    "count": S.mk_int("count"), "tally": S.mk_int("tally"), "delay": 0}
+                                    "count": S.mk_int("count"), "tally": S.mk_int("tally"), "delay": S.mk_int("retry_delay")}
                 if rec_c in st.COMPLETED_STATUSES and e.branch(S.mk_bool("decided_before").z):
                     for i, tg in enumerate(targets):
                         rec["next"][tid_of(tg, i)] = S.mk_bool("old_next%d" % i)
@@ -263,7 +263,7 @@ class UpdateTaskState(Unit):
                 return sorted(out, key=lambda x: x[1])
 
             def get_task_retry_spec(eng, tid):
-                return {"when": None, "count": S.mk_int("spec_count"), "delay": 0} if (tid == T and has_retry) else None
+                return {"when": None, "count": "<% ctx().spec_count %>", "delay": "<% ctx().spec_delay %>"} if (tid == T and has_retry) else None
 
             graph = AbstractObj(
                 "graph",
@@ -487,9 +487,13 @@ class UpdateTaskState(Unit):
                 tally_ok = True
                 if old_tally is not None and cur is rec:
                     tally_ok = e.zbool_of(e.sym_eq(cur["retry"]["tally"], SInt(old_tally.z + 1)))
+                # the entry is staged with the record's own (evaluated) retry settings: same condition,
+                # count, delay and tally as the record holds after the increment
+                settings_ok = _same(e, entry["retry"], cur["retry"]) if "retry" in cur else False
                 O("C13.uts.no_transition_on_retry",
                   z3.And(z3.BoolVal(not next_written and not touched and not ctx_grew and not crit
                                     and entry["ready"] is True and len([x for x in staged if x["id"] == task_id]) == 1),
+                         settings_ok if not isinstance(settings_ok, bool) else z3.BoolVal(settings_ok),
                          tally_ok if not isinstance(tally_ok, bool) else z3.BoolVal(tally_ok)))
             else:
                 O("C13.uts.no_transition_on_retry", True)
